@@ -35,6 +35,9 @@ class Plan:
         self.case, self.kind, self.delay, self.drops, self.big = case, kind, delay, drops, big
 
 
+# the rig's own scripted upstreams (both families' spelling)
+UPSTREAM_IPS = {"127.0.1.1", "127.0.1.2", "::ffff:127.0.1.1", "::ffff:127.0.1.2"}
+
 def main():
     base.enter_namespaces()
     args = base.parse_args()
@@ -172,7 +175,7 @@ def main():
             q = dnslib.build_query(qid, "q%d.c07.test" % case, edns=1232)
             t0 = time.monotonic()
             try:
-                resp = dnslib.udp_query(dst, q, timeout=wait, family=fam, collect_for=1.2)
+                resp = dnslib.udp_query(dst, q, timeout=wait, family=fam, collect_for=1.2, ignore_from=UPSTREAM_IPS)
                 err = None
             except OSError as e:
                 resp, err = [], str(e)
@@ -293,6 +296,9 @@ def main():
                             if s2 is sk:
                                 try:
                                     d_, frm = sk.recvfrom(65535)
+                                    if frm[0] in UPSTREAM_IPS and frm[1] == 53:
+                                        dnslib.STRAY_IGNORED[0] += 1
+                                        continue
                                     got.setdefault(c, []).append((d_, frm))
                                 except OSError:
                                     pass
@@ -301,6 +307,9 @@ def main():
                     try:
                         while True:
                             d_, frm = sk.recvfrom(65535)
+                            if frm[0] in UPSTREAM_IPS and frm[1] == 53:
+                                dnslib.STRAY_IGNORED[0] += 1
+                                continue
                             got.setdefault(c, []).append((d_, frm))
                     except OSError:
                         pass
@@ -397,6 +406,20 @@ def main():
         for e in up_events:
             if e["kind"] == "query":
                 tx_by_name.setdefault((e.get("qname") or "").lower(), []).append(e)
+        # A datagram a client socket receives from one of the rig's own scripted upstreams is not a response of the server under
+        # test: the upstream's late or duplicated reply was addressed to the port of an upstream socket the server has closed since,
+        # and the kernel has handed that port to this client socket (seen once, thorough tier on a loaded machine).
+        upstream_ips = UPSTREAM_IPS
+        leg.count("datagrams_from_the_scripted_upstream_on_a_reused_port_ignored", dnslib.STRAY_IGNORED[0])
+        cleaned = []
+        for (case, lname, transport, qid, resp, err) in results:
+            if transport == "udp":
+                stray = [x for x in resp if x[1] and x[1][0] in upstream_ips and x[1][1] == 53]
+                if stray:
+                    leg.count("datagrams_from_the_scripted_upstream_on_a_reused_port_ignored", len(stray))
+                    resp = [x for x in resp if x not in stray]
+            cleaned.append((case, lname, transport, qid, resp, err))
+        results = cleaned
         for (case, lname, transport, qid, resp, err) in results:
             pl = plans[case]
             leg.eval()
